@@ -372,8 +372,7 @@ void run(const Json& plan)
     const char* P = c07 ? "C07" : "C06";
     World w;
     w.app_delay_ns = plan.num("app_delay_us", 0) * 1000;
-    w.scratch = "/verif/build/scratch/" + std::to_string(getpid());
-    mkdir("/verif/build/scratch", 0755);
+    w.scratch = scen::scratch_root() + "/" + std::to_string(getpid());
     mkdir(w.scratch.c_str(), 0755);
 
     const Json& jf = plan.get("faults");
